@@ -491,3 +491,83 @@ fn c12_rwlock_cancelled_writer_d1() {
         std::mem::forget(g);
     }
 }
+
+// ---- C13: a write guard dropped by a panic poisons *before* it releases --------------------------
+/// root: the panicking writer's guard drop; a contender's whole try_write / try_read lands at any
+/// atomic step of it (or after).  A contender that gets the lock after a writer panicked inside
+/// it must be told so (Poisoned), never handed an Ok guard over half-updated data.
+static mut C_LEFT: bool = false;
+static mut C_GOT_OK: bool = false;
+static mut C_GOT_ANY: bool = false;
+fn run_contender() {
+    unsafe {
+        C_LEFT = false;
+        np::nested(|| {
+            if B_KIND == 0 {
+                match (*L).try_write() {
+                    Ok(g) => {
+                        C_GOT_OK = true;
+                        C_GOT_ANY = true;
+                        std::mem::forget(g);
+                    }
+                    Err(TryLockError::Poisoned(e)) => {
+                        C_GOT_ANY = true;
+                        std::mem::forget(e);
+                    }
+                    Err(TryLockError::WouldBlock) => {}
+                }
+            } else {
+                match (*L).try_read() {
+                    Ok(g) => {
+                        C_GOT_OK = true;
+                        C_GOT_ANY = true;
+                        std::mem::forget(g);
+                    }
+                    Err(TryLockError::Poisoned(e)) => {
+                        C_GOT_ANY = true;
+                        std::mem::forget(e);
+                    }
+                    Err(TryLockError::WouldBlock) => {}
+                }
+            }
+        });
+    }
+}
+fn hook_contender() {
+    unsafe {
+        if np::DEPTH == 0 && C_LEFT && kani::any() {
+            run_contender();
+        }
+    }
+}
+rw_harness! {
+    #[kani::unwind(5)]
+    #[kani::stub(core::sync::atomic::Atomic::<usize>::load, sa::usize_load)]
+    #[kani::stub(core::sync::atomic::Atomic::<usize>::store, sa::usize_store)]
+    #[kani::stub(core::sync::atomic::Atomic::<usize>::compare_exchange, sa::usize_cas)]
+    #[kani::stub(core::sync::atomic::Atomic::<usize>::fetch_sub, sa::usize_fetch_sub)]
+    fn c13_rwlock_panicking_writer_drop_vs_contender() {
+        let l: &'static RwLock<u8> = Box::leak(Box::new(RwLock::new(0u8)));
+        let g = lr_write(l.write());
+        unsafe {
+            L = l;
+            B_KIND = if kani::any() { 0 } else { 1 };
+            C_LEFT = true;
+            np::PANICKING = true; // the writer panics while it holds the guard
+            np::HOOK = Some(hook_contender);
+        }
+        drop(g);
+        unsafe {
+            np::HOOK = None;
+            np::PANICKING = false;
+            let inside = !C_LEFT;
+            if C_LEFT {
+                run_contender();
+            }
+            assert!(!C_GOT_OK, "C13: a contender was handed an Ok guard although the writer panicked while holding the lock (poison flag set too late)");
+            assert!(l.is_poisoned());
+            kani::cover!(inside && C_GOT_ANY, "contender got in while the panicking writer's drop was still running");
+            kani::cover!(inside && !C_GOT_ANY, "contender was refused inside the drop (lock still held)");
+        }
+    }
+}
